@@ -8,9 +8,17 @@
 // state machine from genesis at every query.
 //
 // Suite A: the complete binary vote tree (every vote pattern of every period),
-//          every node queried in three global orders on a shared cache.
+//
+//	every node queried in three global orders on a shared cache.
+//
 // Suite B: two-branch trees (independent arm vote patterns, arms with different
-//          clocks), five query points in all 5! orders.
+//
+//	clocks), four/five query points in all 4!/5! orders.
+//
+// Suite C: rule gating end to end on real blocks (verif/lab, ProcessBlock): a
+//
+//	CSV-violating transaction is accepted up to the last LOCKED_IN
+//	block and rejected from the first ACTIVE block, also across a reorg.
 package main
 
 import (
@@ -18,7 +26,6 @@ import (
 	"os"
 	"runtime"
 	"runtime/debug"
-	"runtime/pprof"
 	"sort"
 	"strings"
 	"sync"
@@ -55,9 +62,9 @@ func bindReference(r *ev.Run) {
 	// blockchain/thresholdstate_test.go, TestThresholdStateTransition (window
 	// 2016; conditionTrue means every block of the window signals).
 	type row struct {
-		cur, next                                    refbip9.State
+		cur, next                                   refbip9.State
 		started, ended, eligible, speedy, condition bool
-		thr                                          uint32
+		thr                                         uint32
 	}
 	rows := []row{
 		{cur: D, next: D},
@@ -272,12 +279,6 @@ func main() {
 		r.Finish(false)
 	}
 
-	if pf := os.Getenv("C14_PROF"); pf != "" { // development aid
-		f, _ := os.Create(pf)
-		pprof.StartCPUProfile(f)
-		defer pprof.StopCPUProfile()
-		time.AfterFunc(40*time.Second, func() { pprof.StopCPUProfile(); f.Close(); os.Exit(3) })
-	}
 	thorough := r.Thorough()
 	if thorough {
 		r.SetBudget(14 * time.Minute)
@@ -289,8 +290,9 @@ func main() {
 
 	r.Rule("Suite A: one real btcd block index holds the COMPLETE binary vote tree (heights 3..2+depth, two vote kinds per block), i.e. every vote pattern of every period and every fork between two histories; " +
 		"each (tree, 6 deployment definitions, network threshold) pass queries every node for all 6 slots in three global orders (ascending heights, deepest first, depth-first via the exported tip API), each order on a fresh BlockChain over the shared index, and compares with the cache-free reference. " +
-		"Suite B: two-arm trees with independent arm vote patterns and per-arm clocks; 5 query points in all 120 orders, fresh BlockChain per order. " +
-		"Distinct non-trivial = distinct (threshold, definition, per-period state trajectory along a root-to-leaf path) with at least one state other than DEFINED, plus fork trees whose two tips are in different states.")
+		"Suite B: two-arm trees with independent arm vote patterns and per-arm clocks; 4 (quick) / 5 (thorough) query points in all 24 / 120 orders, every order starting from empty caches (the trie of orders is walked by cloning the BlockChain with its caches at each branching). " +
+		"Suite C: real blocks through ProcessBlock; for every vote pattern of periods 1-2 and every probe height a block with a BIP68- or OP_CSV-violating transaction must be accepted iff the reference state of that block is not ACTIVE. " +
+		"Distinct non-trivial = distinct (threshold, definition, per-period state trajectory along a root-to-leaf path) with at least one state other than DEFINED, plus fork trees whose two tips are in different states, plus every suite C scenario.")
 	r.Assume("speedy-trial rules (no DEFINED->FAILED, threshold wins over timeout in STARTED) apply to deployments with a min activation height or a custom threshold, original BIP9 rules to the others (btcd keeps both)")
 	r.Assume("only histories inside BIP9's precondition: start <= timeout, block time > MTP(parent) (so MTP never decreases) -- checked by the harness for every schedule")
 	r.Assume("AlwaysActiveHeight is a documented btcd extension: blocks at height >= it are ACTIVE even after FAILED; 0 means unset")
@@ -595,9 +597,9 @@ func main() {
 	r.Set("bounds", map[string]interface{}{
 		"window": W, "network_threshold": []int{2, 3}, "deployment_slots_per_chain": nSlots, "slot_bits": slotBits,
 		"suite_A_depth_blocks": depth, "suite_A_trees": boundsCombos,
-		"start_timeout_note": "start/timeout values are median-time-past values of the tree's main line: MTP(h2), MTP(h5), MTP(h8), MTP(h11) are what the period boundaries see; 'x+1' is one past; pairs with start>timeout are excluded (BIP9 precondition)",
+		"start_timeout_note":  "start/timeout values are median-time-past values of the tree's main line: MTP(h2), MTP(h5), MTP(h8), MTP(h11) are what the period boundaries see; 'x+1' is one past; pairs with start>timeout are excluded (BIP9 precondition)",
 		"min_activation_note": "periods start at heights 9 and 12, hence 9,10 / 12,13",
-		"schedules":                    "step: T0+600h; jitter: step with odd heights >=3 moved back 700 s; min: MTP(parent)+1",
+		"schedules":           "step: T0+600h; jitter: step with odd heights >=3 moved back 700 s; min: MTP(parent)+1",
 	})
 	r.Add("suite_A_passes", totPasses)
 	r.Add("suite_A_state_queries", totStateQ)
